@@ -720,7 +720,10 @@ def c03(ctx):
             "N > R); after each event: reads from every member and Put/Delete operations through random members after the push but before any table moved, after each of two "
             "single-table balancer runs, at stabilisation (with white-box copy counts) and after it; non-trivial = an operation was issued while a partition had a previous "
             "owner holding data")
-    design = [("Rebalance", "Rebalance_quick.cfg" if quick else "Rebalance_thorough.cfg", {"timeout": 2400})]
+    design = [("Rebalance", "Rebalance_quick.cfg" if quick else "Rebalance_thorough.cfg", {"timeout": 2400}),
+              ("RoleSwap", "RoleSwap_ordered.cfg", {})]
+    # two old members swapping roles: the balancer's two independent moves leave both copies on one member for a while (D26)
+    vlib.design_expect_violation(ctx, "RoleSwap", "RoleSwap.cfg", "Survives", "D26", name="RoleSwap-as-is")
     return ledger_run(ctx, "TestC03", "c03.ndjson", "c03.summary.json", {"VERIF_SCENARIOS": 12 if quick else 300}, design, rule, "rebalancing")
 
 
@@ -735,5 +738,10 @@ def c02(ctx):
             "cluster; then 1..R-1 members stop one after the other (random member or the coordinator, graceful or abrupt, at a quiescent point or while a workload runs on "
             "other keys); after each re-stabilisation every key is read from every survivor; then 40 more operations and reads; non-trivial = a stopped member held a copy "
             "of an asserted key")
-    design = [("Rebalance", "Rebalance_quick.cfg" if quick else "Rebalance_thorough.cfg", {"timeout": 2400})]
+    design = [("Rebalance", "Rebalance_quick.cfg" if quick else "Rebalance_thorough.cfg", {"timeout": 2400}),
+              ("Failover", "Failover_promote.cfg", {})]
+    # the copies of a partition across failures: the balancer's rules as they are lose (or hide) the last copy with N = R members and
+    # R-1 failures (D27); so does, even with the repair that was tried, a failure inside the hand-over window (the failover twin of D26)
+    vlib.design_expect_violation(ctx, "Failover", "Failover.cfg", "Readable", "D27", name="Failover-as-is")
+    vlib.design_expect_violation(ctx, "Failover", "Failover_window.cfg", "Readable", "D26 (its twin after a failover)", name="Failover-window")
     return ledger_run(ctx, "TestC02", "c02.ndjson", "c02.summary.json", {"VERIF_SCENARIOS": 12 if quick else 250}, design, rule, "durability")
